@@ -52,7 +52,75 @@ TOOLS = ("ncvalidator", "cdfdiff", "ncmpidiff", "ncmpidump", "ncoffsets", "ncmpi
 # ---------------------------------------------------------------------------------------------------------------
 # Named exclusions: confirmed findings on the pinned tree (replays in /verif/replays/C20/<name>.json run WITHOUT them).
 # The campaign skips exactly the unit/generator class named here and counts it as excluded_<name>.
-EXCLUSIONS = {}
+def _target(unit):
+    d = unit.get("derived") or None
+    return bytes.fromhex(d["hex"] if d else unit["base"]["hex"])
+
+
+def _has_tag0(unit, info, fb):
+    try:
+        return bool(C.decode(_target(unit)).list_style)
+    except C.CDFError:
+        return False
+
+
+def dbl_eq_not_fill(v, fill):
+    """64-bit integer value that differs from the fill value but equals it after conversion to double"""
+    return int(v) != int(fill) and float(int(v)) == float(int(fill))
+
+
+def _dump64(unit, info, fb, what):
+    try:
+        f, data = load(_target(unit))
+    except C.CDFError:
+        return False
+    if what == "att":
+        return any(a.xtype in (10, 11) and any(abs(int(x)) > 2 ** 53 for x in a.values) for _, lst, i in all_atts(f) for a in [lst[i]])
+    for v, d in zip(f.vars, data):
+        if v.xtype in (10, 11) and not (f.is_record(v) and not f.numrecs):
+            has, fv = fill_of(f, v)
+            if has and any(dbl_eq_not_fill(x, fv) for x in d.reshape(-1)):
+                return True
+    return False
+
+
+EXCLUSIONS = {
+    # F-A ncmpidump.c pr_att(): every numeric attribute is fetched with ncmpi_get_att_double and cast back in pr_att_vals():
+    #     NC_INT64 / NC_UINT64 attribute values beyond 2^53 are printed wrong (18446744073709551614 as 0ULL).
+    #     replay: replays/C20/dump-int64-att-via-double.json
+    "dump_att64_via_double": {"what": "ncmpidump prints NC_INT64/NC_UINT64 attribute values through double (wrong beyond 2^53)",
+                              "match": lambda u, i, fb: u["tool"] in ("ncmpidump", "ncmpigen") and _dump64(u, i, fb, "att")},
+    # F-B vardata.c PRINT_VAL(): `double fillval == val` compares 64-bit integers after conversion to double: values next to the
+    #     fill value (INT64_MAX-1.., UINT64_MAX, -2^63..) are printed as '_'.  replay: replays/C20/dump-int64-near-fill-as-fill.json
+    "dump_fill64_via_double": {"what": "ncmpidump prints 64-bit integer data next to the fill value as '_' (comparison in double)",
+                               "match": lambda u, i, fb: u["tool"] in ("ncmpidump", "ncmpigen") and _dump64(u, i, fb, "fill")},
+    # F-C ncvalidator.c val_fetch(): zero-fills past EOF and nothing relates the parsed header to the file size: a file cut inside
+    #     its header is reported valid whenever the zero-filled remainder parses.  replay: replays/C20/validator-truncated-header.json
+    "validator_truncated_header": {"what": "ncvalidator accepts files truncated inside the header",
+                                   "match": lambda u, i, fb: u["tool"] == "ncvalidator" and (u.get("derived") or {}).get("cls") == "c_truncated"},
+    # F-C2 ncvalidator.c hdr_get_NON_NEG()/val_get_NC_dim(): a CDF-5 dimension length with the sign bit set (negative INT64) is read with
+    #     get_uint64, cast to long long and never checked.  replay: replays/C20/validator-negative-dimlen-cdf5.json
+    "validator_negative_dimlen": {"what": "ncvalidator accepts a negative CDF-5 dimension length",
+                                  "match": lambda u, i, fb: u["tool"] == "ncvalidator" and (u.get("derived") or {}).get("cls") == "c_neg_dimlen"},
+    # F-D cdfdiff.c: `k = i % nattrs[1]` (global and per-variable attribute loops) divides by zero when one file has attributes
+    #     and the other has none -> SIGFPE.  replay: replays/C20/cdfdiff-empty-attlist-sigfpe.json
+    "cdfdiff_empty_attlist_fpe": {"what": "cdfdiff dies with SIGFPE when exactly one of the two attribute lists is empty",
+                                  "match": lambda u, i, fb: u["tool"] == "cdfdiff" and (u.get("derived") or {}).get("kind") == "a_att_del" and i.get("natts_left") == 0},
+    # F-E ncmpidiff.c: the three `switch (xtype[0])` statements have no `case NC_BYTE`: NC_BYTE attributes and variables are never
+    #     compared.  replay: replays/C20/ncmpidiff-byte-var-not-compared.json, ncmpidiff-byte-att-not-compared.json
+    "ncmpidiff_byte_not_compared": {"what": "ncmpidiff never compares the values of NC_BYTE attributes and variables",
+                                    "match": lambda u, i, fb: u["tool"] == "ncmpidiff" and (u.get("derived") or {}).get("kind") in ("a_value", "a_value_lastrec", "a_att_value")
+                                    and i.get("xt") == C.NC_BYTE},
+    # F-F cdfdiff.c: the number of records is never compared (the record dimension has length 0 in both headers) and the record
+    #     loop runs over the FIRST file's numrecs.  replay: replays/C20/cdfdiff-numrecs-not-compared.json
+    "cdfdiff_numrecs_not_compared": {"what": "cdfdiff does not compare the number of records",
+                                     "match": lambda u, i, fb: u["tool"] == "cdfdiff" and (u.get("derived") or {}).get("kind") == "a_numrecs"},
+    # F-G ncoffsets.c hdr_get_NC_{dim,attr,var}array: `if (ndefined == 0) { if (type != NC_UNSPECIFIED) NC_ENOTNC }`: an empty list
+    #     written as (tag, 0), which the library, ncvalidator, cdfdiff, ncmpidiff and ncmpidump accept, is refused.
+    #     replay: replays/C20/ncoffsets-tag0-empty-list.json
+    "ncoffsets_tag0_list": {"what": "ncoffsets refuses files whose empty list is encoded as (tag, 0)",
+                            "match": lambda u, i, fb: u["tool"] == "ncoffsets" and _has_tag0(u, i, fb)},
+}
 ACTIVE = set()
 
 
@@ -84,13 +152,14 @@ class Tools:
         os.makedirs(self.tmp, exist_ok=True)
         env = dict(os.environ)
         env.update(BASE_ENV)
-        env.update({"OMPI_MCA_ess_singleton_isolated": "1", "OMPI_MCA_orte_tmpdir_base": self.tmp, "TMPDIR": self.tmp})
+        env.update({"OMPI_MCA_ess_singleton_isolated": "1", "OMPI_MCA_pml": "ob1", "OMPI_MCA_orte_tmpdir_base": self.tmp, "TMPDIR": self.tmp})
         for k in ("PNETCDF_HINTS", "PNETCDF_SAFE_MODE", "PNETCDF_VERBOSE_DEBUG_MODE"):
             env.pop(k, None)
         self.env = env
         self.nfile = 0
         self.launches = collections.Counter()
         self.seconds = collections.Counter()
+        self.slowest = {}
 
     def path(self, stem, ext=".nc"):
         self.nfile += 1
@@ -112,7 +181,10 @@ class Tools:
         try:
             return self._run(tool, cmd, k, timeout)
         finally:
-            self.seconds[tool] += time.time() - t0
+            dt = time.time() - t0
+            self.seconds[tool] += dt
+            if dt > self.slowest.get(tool, (0, 0))[0]:
+                self.slowest[tool] = (round(dt, 2), k)
 
     def _run(self, tool, cmd, k, timeout):
         last = None
@@ -394,7 +466,7 @@ def group_strategy(draw, tier="quick", kmax=1):
     spec = {"style": style, "origin": origin, "version": version, "numrecs": numrecs, "dims": dims, "gatts": gatts, "vars": vars_,
             "layout": draw(layout_strategy(nv)), "lib": lib,
             "derived": [draw(derived_strategy(nv)) for _ in range(7)],
-            "mpik": [draw(st.sampled_from([1, 1, 1, 2, 2, 3])) for _ in range(6)],
+            "mpik": [draw(st.sampled_from([1, 1, 1, 1, 1, 1, 2, 2, 3])) for _ in range(6)],
             "rev": [chance(draw, 50) for _ in range(6)], "both": [chance(draw, 25) for _ in range(6)],
             "offs_r": chance(draw, 50), "dump_derived": chance(draw, 35), "ident_mpi": chance(draw, 30)}
     return spec
@@ -411,7 +483,10 @@ def spec_model(spec):
     def mk_atts(lst):
         tk, out = set(), []
         for a in lst:
-            vals = gen_values(a["xt"], a["n"], a["seed"], a["vstyle"] if a["xt"] == C.NC_CHAR or a["vstyle"] != "cdlnl" else "full")
+            vs = a["vstyle"] if a["xt"] == C.NC_CHAR or a["vstyle"] != "cdlnl" else "full"
+            if a["xt"] in (10, 11) and style != "wide" and excl("dump_att64_via_double"):
+                vs = "safe53"
+            vals = gen_values(a["xt"], a["n"], a["seed"], vs)
             out.append(C.Att(mk_name(style, a["code"], tk), a["xt"], vals))
         return out, tk
     f.gatts, _ = mk_atts(spec["gatts"])
@@ -435,6 +510,14 @@ def spec_model(spec):
         else:
             arr = vals.reshape(shape)
         data.append(arr)
+        if v["xt"] in (10, 11) and excl("dump_fill64_via_double") and style != "wide":
+            # keep 64-bit data away from values that equal the (default) fill value only after conversion to double
+            flat = arr.reshape(-1)
+            for j in range(flat.size):
+                if dbl_eq_not_fill(flat[j], NC_FILL[v["xt"]]):
+                    flat[j] = 0
+            arr = flat.reshape(shape)
+            data[-1] = arr
         if v["fillatt"] is not None and b"_FillValue" not in tk:
             code = v["fillatt"]
             if n and code % 3:
@@ -442,6 +525,8 @@ def spec_model(spec):
                 fv = fv.tobytes() if v["xt"] == C.NC_CHAR else fv.copy()
             else:
                 fv = gen_values(v["xt"], 1, code % (2 ** 31), vs)
+            if v["xt"] in (10, 11) and style != "wide" and (excl("dump_fill64_via_double") or excl("dump_att64_via_double")):
+                fv = np.array([int(fv[0]) % (2 ** 53)], dtype=C.NP_DTYPE[v["xt"]])
             var.atts.append(C.Att(b"_FillValue", v["xt"], fv))
     return f, data
 
@@ -827,7 +912,9 @@ def inject(base, fb, d):
         out = out[:cut]
         info.update(cut=cut, tail_zero=not any(base[cut:hs]), desc="file cut at %d of header size %d (removed header bytes all zero: %s)" % (cut, hs, not any(base[cut:hs])))
     elif kind == "c_neg_dimlen":
-        if not fb.dims:
+        # CDF-1/2 readers treat the 32-bit length as unsigned in practice (CDF-2 dimensions up to 2^32-4 are documented); only the
+        # 64-bit NON_NEG of CDF-5 is unambiguously negative
+        if not fb.dims or fb.version != 5:
             return None
         i = p[0] % len(fb.dims)
         v = [-1, -(2 ** (8 * w - 1)), -(2 ** (8 * w - 1)) + fb.dims[i].length, -5][p[1] % 4]
@@ -1448,7 +1535,7 @@ def _worker(args):
     ACTIVE.update(active)
     ctx = runner.Ctx(PROP, tier, seed_, widx, nworkers)
     ctx.build = builds
-    ctx.kmax = 2 if widx % 4 == 0 else 1
+    ctx.kmax = 2 if widx % 8 == 0 else 1
     root = tempfile.mkdtemp(prefix="c20.%d.%d." % (os.getpid(), widx), dir=scratch_base())
     ctx.T = Tools(builds["plain"], root)
     t0 = time.time()
@@ -1474,7 +1561,7 @@ def _worker(args):
         shutil.rmtree(root, ignore_errors=True)
     return {"stats": dict(ctx.stats), "nt": list(ctx.nt), "samples": ctx.samples, "evaluations": ctx.evaluations, "failures": ctx.failures,
             "notes": ctx.notes, "known_hits": dict(ctx.known.hits), "excluded_known": ctx.excluded_known, "wall": time.time() - t0,
-            "launches": dict(ctx.T.launches), "seconds": {k: round(v, 2) for k, v in ctx.T.seconds.items()}}
+            "launches": dict(ctx.T.launches), "seconds": {k: round(v, 2) for k, v in ctx.T.seconds.items()}, "slowest": dict(ctx.T.slowest)}
 
 
 def sig_key(problems):
@@ -1488,6 +1575,7 @@ def main():
     ap.add_argument("--replay", default=None)
     ap.add_argument("--workers", type=int, default=int(os.environ.get("VERIF_WORKERS", "16")))
     ap.add_argument("--groups", type=int, default=0, help="triage aid: groups per worker")
+    ap.add_argument("--no-replays", action="store_true", help="triage aid: skip the regression replays")
     ap.add_argument("--no-exclusions", action="store_true", help="triage aid: campaign without the named exclusions")
     a = ap.parse_args()
     if a.tier not in ("quick", "thorough"):
@@ -1525,7 +1613,7 @@ def main():
     violations, notes = [], []
     rdir = os.path.join(VERIF, "replays", PROP)
     nreg = 0
-    if os.path.isdir(rdir):
+    if os.path.isdir(rdir) and not a.no_replays:
         for fn in sorted(os.listdir(rdir)):
             if not fn.endswith(".json"):
                 continue
@@ -1551,6 +1639,7 @@ def main():
             results = mp.map(_worker, args)
     stats, nt, launches, seconds = collections.Counter(), set(), collections.Counter(), collections.Counter()
     samples, failures = [], []
+    slowest = {}
     evaluations = excluded_known = 0
     known_hits = collections.Counter(ctx0.known.hits)
     for r in results:
@@ -1565,6 +1654,10 @@ def main():
         launches.update(r["launches"])
         seconds.update(r["seconds"])
         seconds["worker_wall"] += r["wall"]
+        seconds["worker_wall_max"] = max(seconds["worker_wall_max"], r["wall"])
+        for tl, (dt, kk) in r["slowest"].items():
+            if dt > slowest.get(tl, (0, 0))[0]:
+                slowest[tl] = (dt, kk)
 
     # triage: one unit per distinct signature (the smallest), replayed 3x
     os.makedirs(rdir, exist_ok=True)
@@ -1604,7 +1697,7 @@ def main():
     wall = time.time() - t0
     per_tool = {t: {k.split(":", 1)[1]: v for k, v in sorted(stats.items()) if k.startswith(t + ":")} for t in TOOLS}
     cov = {"evaluations": evaluations, "distinct_nontrivial": len(nt), "rule": RULE, "samples": samples[:4],
-           "classes": dict(sorted(stats.items())), "per_tool_per_kind": per_tool, "tool_launches": dict(launches), "tool_seconds": {k: round(v, 1) for k, v in seconds.items()},
+           "classes": dict(sorted(stats.items())), "per_tool_per_kind": per_tool, "tool_launches": dict(launches), "tool_seconds": {k: round(v, 1) for k, v in seconds.items()}, "slowest_launch_s_k": slowest,
            "excluded_known": excluded_known, "exclusions_active": active,
            "exclusions": {k: v["what"] for k, v in EXCLUSIONS.items()}, "validator_classes_asserted": CLAIMED,
            "regression_replays": nreg, "workers": nw, "groups_per_worker": ng, "build": {k: os.path.basename(v) for k, v in builds.items()},
